@@ -34,6 +34,10 @@ type scenario struct {
 	// WFail > 0 (silence scenarios): transmission #WFail-1 fails (expired write deadline, no buffer space, ...): the call
 	// ends there with that error -- a failed transmission is not an elapsed try -- and nothing further is sent
 	WFail int `json:"wfail,omitempty"`
+	// Second: the call's matcher has a memory -- it takes the second acceptable response it is shown.  Two responses arrive
+	// at the instant of the scenario, one after the other; the call ends with the second (every datagram is shown to the
+	// matcher exactly once, whatever the client logs about it)
+	Second bool `json:"second,omitempty"`
 }
 
 func writeErrOf(k int) error {
@@ -138,7 +142,18 @@ func run(t *testing.T, sc scenario, want []byte, xid uint32) (res result) {
 		done := make(chan struct{})
 		go func() {
 			defer close(done)
-			res.resp, res.gotMsg, res.err = c.SendAndRead(ctx, dests[sc.Dest], req, nil)
+			var m cli.MatchFn
+			if sc.Second {
+				shown := 0
+				m = func(rp cli.Resp) bool {
+					if rp.Nil || rp.Type != f.AcceptType() {
+						return false
+					}
+					shown++
+					return shown >= 2
+				}
+			}
+			res.resp, res.gotMsg, res.err = c.SendAndRead(ctx, dests[sc.Dest], req, m)
 			res.retAt = time.Since(start)
 			res.returned = true
 		}()
@@ -161,6 +176,10 @@ func run(t *testing.T, sc scenario, want []byte, xid uint32) (res result) {
 			time.Sleep(tryStart + off)
 			synctest.Wait() // the try's transmission (if any at this instant) has happened
 			if sc.Off != "inwrite" {
+				if sc.Second { // the first of the two: shown to the matcher, not taken
+					conn.Inject(sconn.Datagram{B: f.Datagram("matching", xid, 100+respNonce(sc), f.AcceptType()), From: dests[sc.Dest], Nonce: 100 + respNonce(sc), Class: "matching"})
+					synctest.Wait()
+				}
 				conn.Inject(sconn.Datagram{B: f.Datagram("matching", xid, respNonce(sc), f.AcceptType()), From: dests[sc.Dest], Nonce: respNonce(sc), Class: "matching"})
 			}
 			synctest.Wait()
@@ -317,6 +336,9 @@ func judge(r *mon.Rec, t *testing.T, sc scenario) {
 	if sc.Fault > 0 {
 		r.Count("scenarios_with_a_read_fault", 1)
 	}
+	if sc.Second {
+		r.Count("scenarios_with_a_matcher_with_memory", 1)
+	}
 	if r.NSamples() < 6 && sc.N >= 2 && sc.N <= 3 {
 		r.Sample(map[string]any{"scenario": sc, "transmissions_at": times(res.writes), "returned_at": res.retAt.String(), "err": fmt.Sprint(res.err)})
 	}
@@ -369,6 +391,9 @@ func grid(quick bool) []scenario {
 							for k := 0; k < kmax; k++ {
 								for _, off := range []string{"start", "inwrite", "middle", "last"} {
 									out = append(out, scenario{Fam: fm, T: T, N: n, Accept: k, Off: off, Extra: ex, Dest: d, CtxDL: dl, Cfg: len(out) % cli.NCfg})
+									if off == "middle" && !dl {
+										out = append(out, scenario{Fam: fm, T: T, N: n, Accept: k, Off: off, Extra: ex, Dest: d, Cfg: len(out) % cli.NCfg, Second: true})
+									}
 								}
 							}
 						}
